@@ -56,7 +56,7 @@ Guard(n, e) ==
     IF e.op = "create_junction" THEN GuardJunction(n, e.idx, e.geo)
     ELSE IF e.op = "create_heat_consumer" THEN GuardBranch(n, "heat_consumer", e.idx, e.a, e.b) /\ HCSpecOK(e.spec)
     ELSE IF e.op = "create_bulk" THEN
-        /\ (e.tbl = "junction" \/ e.badpos = 0)
+        /\ (e.tbl = "junction" \/ e.badpos = 0 \/ 9 \in JLabs(n))
         /\ (e.tbl = "junction" \/ (e.a \in JLabs(n) /\ e.b \in JLabs(n)))
         /\ (e.idxmode = "auto" \/ \A k \in 0..(e.n - 1) : FreeLab(n, e.tbl, e.l0 + k))
     ELSE IF e.op = "create_branch" THEN GuardBranch(n, e.tbl, e.idx, e.a, e.b)
@@ -93,7 +93,8 @@ CreateClauses(n, e) ==
              (IF Cardinality(nr) # e.n THEN {<<"C16.bulk_row_count", e.tbl>>}
               ELSE IF \E k \in 0..(e.n - 1) : \A r \in NewRows(e.post, e.serial + k) :
                         ~(r.lab = e.l0 + k /\ r.svc /\ (e.tbl = "junction" \/
-                            (IF e.tbl \in NodeElTables THEN r.j = e.a ELSE r.a = e.a /\ r.b = e.b)))
+                            (IF e.tbl \in NodeElTables THEN r.j = (IF k + 1 = e.badpos THEN 9 ELSE e.a)
+                             ELSE r.a = (IF k + 1 = e.badpos THEN 9 ELSE e.a) /\ r.b = e.b)))
                    THEN {<<"C16.bulk_row_not_as_requested", e.tbl>>} ELSE {})
              \cup (IF JRows(n) # {r \in JRows(e.post) : r.id \notin ids} \/ ERows(n) # {r \in ERows(e.post) : r.id \notin ids}
                       \/ NRows(n) # {r \in NRows(e.post) : r.id \notin ids} THEN {<<"C16.touched_others", e.op>>} ELSE {})
